@@ -735,6 +735,41 @@ theorem all_ingredient_stores_embedded (v : Nat) (skip : Bool) (kind : Man → R
         exact this
       · exact hrest t ht' m hm
 
+/-! ### resource lookup: an ingredient's own resource is never shadowed -/
+
+/-- **own_resource_never_shadowed.** Whatever the Builder's resource store holds — in particular
+another ingredient's manifest under the same (default) identifier — a resource present in the
+ingredient's own store is the one `add_to_claim` uses. -/
+theorem own_resource_never_shadowed {α : Type} (own builder : RStore α) (id : String) (r : α)
+    (h : rget own id = some r) : getResource own builder id = some r := by
+  simp [getResource, h]
+
+/-- the Builder's store is consulted exactly when the ingredient's own store has nothing under the
+identifier -/
+theorem get_resource_iff {α : Type} (own builder : RStore α) (id : String) (r : α) :
+    getResource own builder id = some r ↔
+      rget own id = some r ∨ (rget own id = none ∧ rget builder id = some r) := by
+  unfold getResource
+  cases h : rget own id with
+  | none => simp
+  | some x => simp
+
+/-- **own_manifest_embedded_whatever_the_builder_holds.** An ingredient that keeps its manifest data
+in its own store is added to the claim exactly as if there were no Builder store: its own manifest
+store is merged and referenced, for every content of the Builder's store. -/
+theorem own_manifest_embedded_whatever_the_builder_holds (v : Nat) (skip : Bool)
+    (kind : Man → RedactionKind) (cur : MStore) (i : IngRec) (id : String) (s : MStore)
+    (own builder : RStore MStore) (h : rget own id = some s) :
+    addToClaimRef v skip kind cur i (some id) own builder =
+      addToClaim v skip kind cur { i with data := some s } := by
+  simp [addToClaimRef, own_resource_never_shadowed own builder id s h]
+
+/-- two stream ingredients and a definition ingredient colliding on the default identifier: each
+carries its own manifest (the seeded swap of the lookup order would give B the manifest of A) -/
+example : getResource [("manifest_data.c2pa", "B")] [("manifest_data.c2pa", "A")] "manifest_data.c2pa" = some "B" ∧
+    getResource ([] : RStore String) [("manifest_data.c2pa", "A")] "manifest_data.c2pa" = some "A" := by
+  decide
+
 /-! ### recorded results and the parent Reader's ingredient deltas -/
 
 /-- **Which logged statuses the parent's read reports.** A status is reported iff it was logged and
